@@ -90,6 +90,16 @@ def _case(job):
             single = [float(np.atleast_1d(get_emodulus(
                 deform=defo[i:i + 1].copy(), **{xk: area[i:i + 1].copy()},
                 **kw))[0]) for i in range(len(pts))]
+            # a caller that loads the table itself and scribbles over what
+            # it was handed (array and metadata) changes nothing for others
+            if name != "array+meta":
+                from dclab.features.emodulus import load as lutload
+                l_, m_ = lutload.load_lut(lut_data)
+                l_[:] = -1.0
+                m_["channel_width"] = 12345.0
+                m_["flow_rate"] = 9.0
+                m_["column features"] = ["volume", "deform", "emodulus"] \
+                    if not vol_axis else ["area_um", "deform", "emodulus"]
             again = np.atleast_1d(get_emodulus(deform=defo, **{xk: area},
                                                **kw))
             # temperature given globally or per event (known medium)
